@@ -17,7 +17,9 @@ import (
 var c14Alpha = []int64{0, 1, -1, 2, -2, 3, (1 << 26) + 1, -((1 << 26) + 1), 1 << 29, -(1 << 29), (1 << 29) - 1}
 
 // difference alphabet for productsAreEqual
-var c14Diff = []int64{0, 1, -1, 2, -2, 3, -3, (1 << 26) + 1, -((1 << 26) + 1), 1 << 29, -(1 << 29), (1 << 30), -(1 << 30), (1 << 30) - 1, -((1 << 30) - 1)}
+var c14Diff = []int64{0, 1, -1, 2, -2, 3, -3, (1 << 26) + 1, -((1 << 26) + 1), 1 << 29, -(1 << 29), (1 << 30), -(1 << 30), (1 << 30) - 1, -((1 << 30) - 1),
+	// multiples of 2^32: products that agree in their low 64 bits and differ only in the high word
+	1 << 32, -(1 << 32), 1 << 33, -(1 << 33), 3 << 32, -(3 << 32)}
 
 func alphaPt(i uint64) Pt {
 	n := uint64(len(c14Alpha))
@@ -260,7 +262,7 @@ func init() {
 	drv.Register(&drv.Check{
 		ID:    "C14",
 		Title: "Geometric measures and predicates are exact",
-		Rule: "complete enumeration of: all point triples over an 11-value coordinate alphabet (0,+-1,+-2,3,+-(2^26+1),+-2^29,2^29-1) through isCollinear and through TrimCollinear64 on the closed 3-point path; all quadruples of a 15-value difference alphabet through productsAreEqual; " +
+		Rule: "complete enumeration of: all point triples over an 11-value coordinate alphabet (0,+-1,+-2,3,+-(2^26+1),+-2^29,2^29-1) through isCollinear and through TrimCollinear64 on the closed 3-point path; all quadruples of a 21-value difference alphabet (0, +-1..3, +-(2^26+1), +-2^29, +-2^30, +-(2^30-1), +-2^32, +-2^33, +-3*2^32: the last group gives products that differ only in the high 64-bit word) through productsAreEqual; " +
 			"Area64/AreaPaths64/IsPositive64 on P(3,3..6) under unit and 2^28 embeddings and on all 3-point paths over the alphabet; PointInPolygon for every lattice point (-1..k)^2 against every polygon of P(4,3..5) and P(3,6) under unit/stride-10/2^28 embeddings; GetBounds64 on P(3,1..5). Oracle: math/big shoelace, exact cross products, exact on-segment + crossing parity. " +
 			"non-trivial = triple base with a proper collinear triple / non-zero-area path / polygon with a lattice point strictly inside",
 		Assumptions:      []string{"operand alphabet is finite; values between the listed magnitudes are not enumerated", "reference predicates use math/big or int64 products that provably fit"},
